@@ -54,18 +54,28 @@ def parent_model(spec, ctx, inner):
 
 @st.composite
 def case_gen(draw):
-    pool = draw(st.lists(keys.SPEC, min_size=1, max_size=8))
+    # a FRESH NaN per item equals nothing (itself included): one group per item; a shared NaN object is not generated (the
+    # implementation's dict would find it by identity, which 'equal by ==' neither demands nor forbids)
+    pool = draw(st.lists(st.one_of(keys.SPEC, keys.SPEC, keys.SPEC, keys.SPEC, st.just(['nan', 1])), min_size=1, max_size=8))
     n = draw(st.sampled_from([0, 1, 3, 6]))
     items = draw(st.lists(st.tuples(st.integers(0, len(pool) - 1), st.integers(-8, 8)).map(list), min_size=n, max_size=14))
     which = draw(st.sampled_from(['to_list', 'identity', 'p', 'p']))
     p = draw(gen.chain('int', INNER, 1, min_len=1)) if which == 'p' else ([['to_list']] if which == 'to_list' else [])
     parent = draw(st.one_of(st.none(), st.none(), st.sampled_from([['group_by', 2], ['roll', 3, 2], ['roll', 2, 2], ['roll', 4, 1], ['split', 'div', 4], ['split', 'mod', 2], ['gb+roll', 2, 3, 1], ['gb+roll', 3, 2, 1], ['gb+roll', 2, 4, 2]])))
-    return {'pool': pool, 'items': items, 'p': p, 'parent': parent, 'buffer': draw(st.integers(0, 3)) == 0}
+    return {'pool': pool, 'items': items, 'p': p, 'parent': parent, 'buffer': draw(st.integers(0, 3)) == 0, 'transient': draw(st.integers(0, 2)) == 0}
 
 
 def check(case):
     pool, p, parent = case['pool'], case['p'], case['parent']
     objs = [(keys.mk(pool[k]), v) for k, v in case['items']]     # a fresh key object per item
+    if case.get('transient'):
+        # the key mapper COMPUTES its value: the key object exists only during the call (its address is free for the next one)
+        src_items = [(k, v) for k, v in case['items']]
+        keyf = lambda i: keys.mk(pool[i[0]])
+    else:
+        src_items = objs
+        keyf = lambda i: i[0]
+    norm = (lambda i: (keys.mk(pool[i[0]]), i[1])) if case.get('transient') else (lambda i: (i[0], i[1]))
     ctx = {'pool': pool, 'items': case['items'], 'pipeline': p, 'parent': parent}
 
     # ---- reference
@@ -84,18 +94,20 @@ def check(case):
     if case.get('buffer'):
         # the source re-uses ONE mutable record, updated in place before each emission (a row buffer); the first stage of
         # the group pipeline copies it.  Every delivery is the identical object, its key is the key it has at that time.
-        inner_ops = [rs.ops.map(lambda i: (i[0], i[1]))] + inner_ops
-        ops = parent_real(parent, [rs.ops.group_by(lambda i: i[0], inner_ops)])
+        inner_ops = [rs.ops.map(norm)] + inner_ops
+        ops = parent_real(parent, [rs.ops.group_by(keyf, inner_ops)])
 
         def rows():
             buf = [None, None]
-            for k, v in objs:
+            for k, v in src_items:
                 buf[0], buf[1] = k, v
                 yield buf
         r = drive.collect(rx.from_(rows()).pipe(rs.state.with_memory_store(ops)))
     else:
-        ops = parent_real(parent, [rs.ops.group_by(lambda i: i[0], inner_ops)])
-        r = drive.store(objs, ops)
+        if case.get('transient'):
+            inner_ops = [rs.ops.map(norm)] + inner_ops
+        ops = parent_real(parent, [rs.ops.group_by(keyf, inner_ops)])
+        r = drive.store(src_items, ops)
     H.require_clean(r, 'group_by run', **ctx)
     if not cmp.same_seq(r.items, exp, approx=True):
         raise Violation('output sequence differs from the reference partition model', expected=exp, got=r.items, **ctx)
@@ -136,6 +148,8 @@ def check(case):
               'parent:' + (parent[0] if parent else 'none')]
     if case.get('buffer'):
         labels.append('reused-row-buffer')
+    if case.get('transient'):
+        labels.append('computed-keys')
     if eqni:
         labels.append('equal-not-identical')
     if any(type(a) is not type(b) and a == b for a in eq_classes for (b, _) in objs):
